@@ -155,3 +155,82 @@ contract(MOS, props=['C01'],
                             f' elems(machine_code)[q] is elems(arguments)[q - ({NP} + 1 + {NS} + {SFX1})]))',
                             f'forall(lambda t: implies(0 <= t and t < {NP} + 1 + {NS} + {SFX1}, elems(machine_code)[t] is'
                             ' entry(elems(machine_code))[t]))'])})
+
+# ---- a numeric operand's parts: configured widths, alignment and byte order --------------------------------------------
+NEP = 'bespokeasm.assembler.model.operand.types.numeric_expression:NumericExpressionOperand._parse_bytecode_parts'
+
+
+@spec
+def arg_endian(o):
+    """an operand argument's own endian, else the default the operand was created with"""
+    if 'endian' in o._config['argument']:
+        return cfg_str(o._config['argument']['endian'])
+    return o._default_endian
+
+
+contract(NEP, name='numeric-operand-parts', props=['C01'], returns='ParsedOperand?',
+         requires=['"argument" in self._config', '"size" in self._config["argument"]'],
+         may_raise={'SystemExit': 'True', 'SyntaxError': 'True', 'KeyError': 'True'},
+         ensures=[
+             # the argument field: exactly the configured width, alignment and byte order
+             'implies(result is not None, result._argument is not None'
+             ' and value_of(result._argument)._value_size == cfg_int(self._config["argument"]["size"])'
+             ' and value_of(result._argument)._byte_align == cfg_bool(self._config["argument"]["byte_align"])'
+             ' and value_of(result._argument)._endian == arg_endian(self))',
+             # the operand's own code field, when it has one: configured value and width, never aligned
+             'implies(result is not None and "bytecode" in self._config and result._bytecode is not None,'
+             ' isa(value_of(result._bytecode), "NumericByteCodePart")'
+             ' and value_of(result._bytecode)._value_size == cfg_int(self._config["bytecode"]["size"])'
+             ' and not value_of(result._bytecode)._byte_align)',
+             'implies(result is not None and not ("bytecode" in self._config), result._bytecode is None)'],
+         modifies=[], allocates=True, no_frame_check=True)
+
+# ---- address / relative-address / register operands: the parts they build ---------------------------------------------
+OT = 'bespokeasm.assembler.model.operand.types.'
+INIT_KEEPS = ['self._value_size == value_size', 'self._byte_align == byte_align', 'self._endian == endian']
+contract(OT + 'address:AddressByteCodePart.__init__', props=['C01', 'C12'], params={'memzone': 'MemoryZone?'},
+         may_raise={'SystemExit': 'True', 'SyntaxError': 'True'},
+         ensures=INIT_KEEPS + ['self._is_lsb_bytes == is_lsb_bytes', 'self._match_address_msb == match_address_msb'],
+         modifies=[], allocates=True, no_frame_check=True)
+contract(OT + 'relative_address:RelativeAddressByteCodePart.__init__', props=['C01', 'C12'],
+         params={'memzone': 'MemoryZone?', 'min_relative_value': 'int?', 'max_relative_value': 'int?'},
+         may_raise={'SystemExit': 'True', 'SyntaxError': 'True'},
+         # the configured limits and the end-relative flag reach the part unchanged
+         ensures=INIT_KEEPS + ['self._min_relative_value == min_relative_value', 'self._max_relative_value == max_relative_value',
+                               'self._offset_from_instruction_end == offset_from_instruction_end'],
+         modifies=[], allocates=True, no_frame_check=True)
+
+ARG_OK = ('implies(result is not None, result._argument is not None'
+          ' and value_of(result._argument)._value_size == cfg_int(self._config["argument"]["size"])'
+          ' and value_of(result._argument)._byte_align == cfg_bool(self._config["argument"]["byte_align"])'
+          ' and value_of(result._argument)._endian == arg_endian(self))')
+CODE_OK = ('implies(result is not None and "bytecode" in self._config and result._bytecode is not None,'
+           ' isa(value_of(result._bytecode), "NumericByteCodePart")'
+           ' and value_of(result._bytecode)._value_size == cfg_int(self._config["bytecode"]["size"])'
+           ' and value_of(result._bytecode)._value == cfg_int(self._config["bytecode"]["value"])'
+           ' and not value_of(result._bytecode)._byte_align)')
+NO_CODE = 'implies(result is not None and not ("bytecode" in self._config), result._bytecode is None)'
+ARGCFG = ['"argument" in self._config', '"size" in self._config["argument"]']
+contract(OT + 'address:AddressOperand._parse_bytecode_parts', name='address-operand-parts', props=['C01'],
+         returns='ParsedOperand?', requires=ARGCFG,
+         may_raise={'SystemExit': 'True', 'SyntaxError': 'True', 'KeyError': 'True', 'ValueError': 'True'},
+         ensures=[ARG_OK, CODE_OK, NO_CODE], modifies=[], allocates=True, no_frame_check=True)
+contract(OT + 'relative_address:RelativeAddressOperand.parse_operand', name='relative-operand-parts', props=['C01', 'C12'],
+         returns='ParsedOperand?', requires=ARGCFG,
+         may_raise={'SystemExit': 'True', 'SyntaxError': 'True', 'KeyError': 'True', 'AttributeError': 'True'},
+         ensures=[ARG_OK, CODE_OK, NO_CODE,
+                  # the configured limits of the offset and the "measured from the last byte" flag are the part's
+                  'implies(result is not None, isa(value_of(result._argument), "RelativeAddressByteCodePart"))',
+                  'implies(result is not None, value_of(result._argument)._offset_from_instruction_end == ite('
+                  '"offset_from_instruction_end" in self._config, cfg_bool(self._config["offset_from_instruction_end"]), False))',
+                  'implies(result is not None and "min" in self._config["argument"] and self._config["argument"].get("min", None) is not None,'
+                  ' value_of(result._argument)._min_relative_value is not None and value_of(value_of(result._argument)._min_relative_value)'
+                  ' == cfg_int(self._config["argument"]["min"]))',
+                  'implies(result is not None and "max" in self._config["argument"] and self._config["argument"].get("max", None) is not None,'
+                  ' value_of(result._argument)._max_relative_value is not None and value_of(value_of(result._argument)._max_relative_value)'
+                  ' == cfg_int(self._config["argument"]["max"]))'],
+         modifies=[], allocates=True, no_frame_check=True)
+contract(OT + 'register:RegisterOperand.parse_operand', name='register-operand-parts', props=['C01'],
+         returns='ParsedOperand?', may_raise={'SystemExit': 'True', 'KeyError': 'True'},
+         ensures=['implies(result is not None, result._argument is None)', CODE_OK, NO_CODE],
+         modifies=[], allocates=True, no_frame_check=True)
